@@ -143,3 +143,65 @@ func mergeIdiom(c *an.Ctx, id, title string, fns map[string]int, label string) {
 	}
 	c.Extra[id+"_merge_loops"] = total
 }
+
+// localDefs maps every local of f to the right-hand sides assigned to it (a tuple
+// assignment from one call records the call for each left-hand side).
+func localDefs(f *an.Fn) map[types.Object][]ast.Expr {
+	defs := map[types.Object][]ast.Expr{}
+	ast.Inspect(f.Body, func(n ast.Node) bool {
+		as, ok := n.(*ast.AssignStmt)
+		if !ok {
+			return true
+		}
+		for i, l := range as.Lhs {
+			id, ok := l.(*ast.Ident)
+			if !ok {
+				continue
+			}
+			o := f.Info.ObjectOf(id)
+			if o == nil {
+				continue
+			}
+			var rhs ast.Expr
+			if len(as.Rhs) == len(as.Lhs) {
+				rhs = as.Rhs[i]
+			} else if len(as.Rhs) == 1 {
+				rhs = as.Rhs[0]
+			}
+			defs[o] = append(defs[o], rhs)
+		}
+		return true
+	})
+	return defs
+}
+
+// derivesFrom: e contains a node satisfying pred, or every definition of a local it
+// mentions does (transitively, bounded depth).  "Every": a local with one definition from the
+// source and another one from elsewhere does not derive from it.
+func derivesFrom(f *an.Fn, defs map[types.Object][]ast.Expr, e ast.Expr, pred func(ast.Node) bool, depth int) bool {
+	found := false
+	ast.Inspect(e, func(n ast.Node) bool {
+		if n == nil || found {
+			return false
+		}
+		if pred(n) {
+			found = true
+			return false
+		}
+		if id, ok := n.(*ast.Ident); ok && depth < 4 {
+			if d := defs[f.Info.ObjectOf(id)]; len(d) > 0 {
+				all := true
+				for _, x := range d {
+					if x == nil || !derivesFrom(f, defs, x, pred, depth+1) {
+						all = false
+					}
+				}
+				if all {
+					found = true
+				}
+			}
+		}
+		return true
+	})
+	return found
+}
